@@ -25,6 +25,7 @@ META = dict(
     technique="AST-to-term translation with exhaustive decision tables + computer-algebra identity; sibling filter agreement",
 )
 META["text"] += " (R6 = C06.R4) each datum is B of the MVR and the CVR of the same card, with the contest's own use_style."
+META["text"] += ' R6 also borrows the CVR-side style filter of C06.R4 and C06.R1 (every margin is recomputed from the CVRs handed in before it is used).'
 
 SPEC_OMEGA = '''
 def spec(self, mvr, cvr, use_style):
@@ -91,7 +92,10 @@ def run(chk):
     # use_style (C06.R4, aligned pairs)
     from . import c06
     chk.borrow(c06.r4, {"C06.R4": "C03.R6"})
-    chk.obs = [o for o in chk.obs if not (o.rule == "C03.R6" and o.key != "aligned-pairs")]
+    chk.obs = [o for o in chk.obs if not (o.rule == "C03.R6" and o.key not in ("aligned-pairs", "style-threshold-filter"))]
+    # ... with the margin v recomputed from the CVRs handed in, for every assertion, before it is used (C06.R1)
+    chk.borrow(c06.r1, {"C06.R1": "C03.R6"})
+    chk.obs = [o for o in chk.obs if not (o.rule == "C03.R6" and o.key not in ("aligned-pairs", "style-threshold-filter", "margin-set-before-read"))]
 
 
 
